@@ -187,11 +187,15 @@ class Auditor(Entity):
     def _run(self):
         w = self.w
         w.auditing = True
+        # `yield 0.0` before every operation: one cache-code segment per delivery, like the clients
         for k in range(len(w.keys)):
+            yield 0.0
             yield from w.perform(self, {"o": "get", "k": k}, 0)
         if w.fam == "cs":
+            yield 0.0
             yield from w.perform(self, {"o": "flush"}, 0)
             for k in range(len(w.keys)):
+                yield 0.0
                 yield from w.perform(self, {"o": "get", "k": k}, 0)
         w.audited = True
         return None
@@ -294,6 +298,9 @@ class World:
         self.done_queue: list = []
         self.inflight: dict[int, dict] = {}
         self.probes: dict[str, int] = {}
+        self.counts: dict[str, int] = {}
+        for _, st in self.stores:
+            self._watch_evict(st)
         self.states: set = set()
         self.n_completed = 0
         self.overlap_any = False
@@ -306,6 +313,22 @@ class World:
 
     def probe(self, name: str) -> None:
         self.probes[name] = 1
+
+    def count(self, name: str, n: int = 1) -> None:
+        self.counts[name] = self.counts.get(name, 0) + n
+
+    def _watch_evict(self, store) -> None:
+        """Observe (not alter) the real policy's evict(): how often does it answer None while the cache is full?"""
+        pol = store._eviction_policy
+        orig = pol.evict
+
+        def evict():
+            r = orig()
+            if r is None and store.cache_size >= store.cache_capacity:
+                self.count("evict_returned_none_while_full")
+            return r
+
+        pol.evict = evict
 
     def _latest_completed(self, k: int, inv: int):
         latest = None
@@ -349,6 +372,7 @@ class World:
             self.overlap_any = True
             if k is not None and other["key"] == k:
                 self.overlap_samekey = True
+                self.count("fault.same_key_operation_overlap")
                 kinds = {other["kind"], kind}
                 if "get" in kinds and kinds & {"put", "delete"}:
                     self.probe("probe.read_overlapped_write_same_key")
@@ -378,6 +402,7 @@ class World:
         elif kind == "inval":
             if self.wb and key in c.get_dirty_keys():
                 self.probe("probe.invalidate_dirty")
+                self.count("fault.invalidate_of_dirty_entry")
             c.invalidate(key)
         elif kind == "inval_all":
             c.invalidate_all()
@@ -386,8 +411,10 @@ class World:
             rec["path"] = "hit" if tier.contains_cached(key) else "miss"
             gen = tier.get(key)
         elif kind == "xput":
+            self.count("fault.external_backing_put")
             gen = self.backing.put(key, value)
         elif kind == "xdel":
+            self.count("fault.external_backing_delete")
             gen = self.backing.delete(key)
         else:
             raise InvalidScenario(f"op {kind}")
@@ -442,6 +469,7 @@ class World:
         e0 = rec.get("_e0")
         if path in ("miss", "coalesced") and e0 is not None:
             self.probe("probe.sttl_read_of_expired_entry")
+            self.count("fault.read_of_hard_ttl_expired_entry")
             if path == "coalesced":
                 self.probe("probe.sttl_coalesced_on_expired_entry")
 
@@ -456,7 +484,7 @@ class World:
         for lbl, store in self.stores:
             self._check_store(lbl, store, seg, kind)
         if self.wb:
-            self._check_owed(kind)
+            self._check_owed(kind, seg)
         if self.done_queue:
             q, self.done_queue = self.done_queue, []
             for rec in q:
@@ -521,6 +549,7 @@ class World:
         ev_now = store.stats.evictions
         if ev_now != self.prev_evictions[lbl]:
             self.probe("probe.eviction")
+            self.count("fault.capacity_eviction", ev_now - self.prev_evictions[lbl])
             self._evicted_now = True
             self.prev_evictions[lbl] = ev_now
         else:
@@ -528,7 +557,7 @@ class World:
         if store.cache_size == store.cache_capacity:
             self.probe("probe.cache_full")
 
-    def _check_owed(self, kind):
+    def _check_owed(self, kind, seg):
         """Write-back: every value accepted by put() and not yet seen in the
         backing store must still be cached *and* marked dirty."""
         c = self.cache
@@ -543,6 +572,11 @@ class World:
             if dirty is None:
                 dirty = set(c.get_dirty_keys())
             if not c.contains_cached(key):
+                if kind == "delete" and seg is not None and seg["key"] == k and seg["ret"] is not None:
+                    # a delete(k) returned in this delivery: it may discard the value of any put(k) that preceded or
+                    # overlapped it (the put was invoked before the delete returned), whichever moment it applies at
+                    del self.owed[k]
+                    continue
                 if kind in ("inval", "inval_all"):
                     cause = "invalidated"
                 elif self._evicted_now:
@@ -558,7 +592,19 @@ class World:
                                 f"dirty value {v} of {key} was replaced in the cache by {c._cache[key]!r} "
                                 f"before reaching the backing store ({self.backing.get_sync(key)!r}), during {kind}")
             if key not in dirty:
-                cause = "dirty-flag-cleared-by-flush" if kind == "flush" else f"dirty-flag-cleared-during-{kind}"
+                cause = f"dirty-flag-cleared-during-{kind}"
+                if kind == "flush":
+                    # narrow: was the key re-written by a put() invoked while the flush's write of this key was in flight?
+                    # (the flush's backing write that just landed was started one write latency ago)
+                    started = self.now_ns() - self.sc["lat"]["w"] * 1000
+                    owed_put = [w for w in self.writes[k] if w["kind"] == "put" and w["value"] == v]
+                    if owed_put and owed_put[-1]["inv"] > seg["inv"] and owed_put[-1]["t_inv"] >= started \
+                            and self.timeline[k][-1][0] == self.now_ns():
+                        cause = "dirty-flag-cleared-by-flush-after-concurrent-put"
+                    elif owed_put and self.timeline[k][-1][0] == self.now_ns():
+                        cause = "dirty-flag-cleared-by-flush-that-wrote-superseded-value"
+                    else:
+                        cause = "dirty-flag-cleared-by-flush-without-writing-value"
                 raise Violation(f"{P}/writeback-lost/CachedStore/{cause}",
                                 f"value {v} of {key} is cached but no longer dirty while the backing store still holds "
                                 f"{self.backing.get_sync(key)!r} (during {kind}); no later flush will write it")
@@ -582,6 +628,7 @@ class World:
         ev_now = c.stats.evictions
         if ev_now:
             self.probe("probe.eviction")
+            self.counts["fault.capacity_eviction"] = ev_now
 
     # ---- judging a completed operation -----------------------------------
     def _judge(self, rec):
@@ -672,7 +719,8 @@ class World:
                     lo = i
                     break
             else:
-                raise AssertionError("completed cache put never reached the backing store timeline")
+                raise Violation(f"{P}/read-after-write/SoftTTLCache/put-never-reached-backing-store",
+                                f"{_fmt(w)} on {key} completed but its value never appeared in the backing store")
         i_put = lo
         floor = rec["t_inv"] - self.hard_ns
         i_ttl = len(tl) - 1
